@@ -273,6 +273,26 @@ def build(unit, workdir):
             added.append(nm)
             g.rules_applied["R23-type-alias"] = g.rules_applied.get("R23-type-alias", 0) + 1
 
+    # R24: module-level constants with a literal initialiser that the unit does not know but the extracted text mentions are copied
+    # into the verified block (a constant is part of the text of the functions that use it)
+    gtext = g.text()
+    for rel, S in list(sources.items()):
+        for mm in re.finditer(r"(?m)^\s*(?:pub(?:\([^)]*\))?\s+)?const\s+([A-Z_][A-Z0-9_]*)\s*:\s*([\w:]+)\s*=\s*([^;]+);", S.m):
+            if brace_depths(S.m)[mm.start(1)] != 0:
+                continue
+            nm, ty = mm.group(1), mm.group(2)
+            rhs = S.text[mm.start(3):mm.end(3)].strip()
+            if re.search(r"\b%s\b" % re.escape(nm), known_text) or not re.search(r"\b%s\b" % re.escape(nm), gtext) or nm in added:
+                continue
+            if ty not in ("usize", "u8", "u16", "u32", "u64", "u128", "isize", "i8", "i16", "i32", "i64", "i128", "bool") or not re.match(r"^[\d_xa-fA-F]+(?:[iu](?:8|16|32|64|128|size))?$|^true$|^false$", rhs):
+                continue      # only plain integer / bool literals: nothing to interpret
+            ks = [i for i, ln in enumerate(g.lines) if ln.strip().startswith("} // verus!")]
+            k = ks[-1] if ks else max(i for i, ln in enumerate(g.lines) if ln.strip().startswith("fn main()"))
+            g.lines.insert(k, "pub const %s: %s = %s;   // R24: constant copied from %s" % (nm, ty, rhs, rel))
+            g.origin.insert(k, ("const", (nm, rel)))
+            added.append(nm)
+            g.rules_applied["R24-const"] = g.rules_applied.get("R24-const", 0) + 1
+
     # R16-pad: pad the call sites (inside extracted bodies only) of functions that lost parameters
     if g.padded:
         from .rustsrc import mask as _mask
@@ -344,6 +364,32 @@ def frame_checks(unit):
     """syntactic frame conditions, evaluated on the source files directly (independent of the rewrite pipeline)"""
     results = []
     for fr in unit.get("frame", []):
+        if fr.get("select_timer_last"):
+            # every `tokio::select!` with a timer arm must be `biased;` with the timer arm LAST: otherwise one poll that finds both the
+            # result ready and the timer expired may report the timeout (an unbiased select! starts at a random arm)
+            tpat = re.compile(fr["select_timer_last"])
+            hits, bad = 0, []
+            for p in sorted(globmod.glob(os.path.join(REPO, fr["glob"]), recursive=True)):
+                rel = os.path.relpath(p, REPO)
+                S = Source(rel, _read(p))
+                tests = [(mm.start(), match_close(S.m, S.m.index("{", mm.end() - 1))) for mm in re.finditer(r"\bmod\s+tests?\s*\{", S.m)]
+                for mm in re.finditer(r"\bselect!\s*\{", S.m):
+                    if any(a <= mm.start() <= b for a, b in tests):
+                        continue
+                    ob = mm.end() - 1
+                    cb = match_close(S.m, ob)
+                    try:
+                        biased, arms, _else = rewrite._split_select_arms(S.text[ob + 1:cb])
+                    except Exception:
+                        biased, arms = False, []
+                    timers = [i for i, a in enumerate(arms) if tpat.search(a["fut"])]
+                    if not timers:
+                        continue
+                    hits += 1
+                    if not (biased and timers == [len(arms) - 1]):
+                        bad.append("%s:%d" % (rel, S.line_of(mm.start())))
+            results.append(dict(name=fr["name"], tags=fr.get("tags", []), hits=hits, bad=bad, min_hits=fr.get("min_hits", 0), violation=fr.get("violation", True)))
+            continue
         pat = re.compile(fr["pattern"])
         hits, bad = 0, []
         for p in sorted(globmod.glob(os.path.join(REPO, fr["glob"]), recursive=True)):
